@@ -537,27 +537,28 @@ mod verif_c12_entry {
 
     // ----------------------------------------------------------- handler_addr
 
+    /// Tags a contract clause with its obligation name (identity on `c`).
+    fn ob(_name: &'static str, c: bool) -> bool {
+        c
+    }
+
     /// C03 clause: `handler_addr()` is canonical for ANY 16 entry bytes, and it is
-    /// the sign extension of offset bits 47:0.
+    /// the sign extension of offset bits 47:0 (contract on a thin wrapper; `x` =
+    /// the 16 bytes as a little-endian u128).
+    #[kani::ensures(|r: &u64| ob("C03.IdtEntry_handler_addr.valid", canonical(*r)))]
+    #[kani::ensures(|r: &u64| ob("C12.Entry_handler_addr.reads_offset_fields", *r & 0xFFFF_FFFF_FFFF == g_offset(x) & 0xFFFF_FFFF_FFFF))]
+    #[kani::ensures(|r: &u64| ob("C12.Entry_handler_addr.reads_offset_fields", !canonical(g_offset(x)) || *r == g_offset(x)))]
+    fn w_handler_addr(x: u128) -> u64 {
+        let e: Entry<HandlerFunc> = unsafe { core::ptr::read_unaligned(&x as *const u128 as *const Entry<HandlerFunc>) };
+        e.handler_addr().as_u64()
+    }
+
     //@ obligation C03 C03.IdtEntry_handler_addr.valid
     //@ obligation C12 C12.Entry_handler_addr.reads_offset_fields
-    #[kani::proof]
+    #[kani::proof_for_contract(w_handler_addr)]
     fn c12_entry_handler_addr_canonical() {
-        let e: Entry<HandlerFunc> = any_entry();
+        let x: u128 = kani::any();
+        w_handler_addr(x);
         kani::cover!(true, "c12_entry_handler_addr_canonical: reachable");
-        let x = raw(&e);
-        let r = e.handler_addr().as_u64();
-        assert!(
-            canonical(r),
-            "C03.IdtEntry_handler_addr.valid: bits 48-63 equal bit 47"
-        );
-        assert!(
-            r & 0xFFFF_FFFF_FFFF == g_offset(x) & 0xFFFF_FFFF_FFFF,
-            "C12.Entry_handler_addr.reads_offset_fields: low 48 bits are offset 15:0 | 31:16 | 47:32"
-        );
-        assert!(
-            !canonical(g_offset(x)) || r == g_offset(x),
-            "C12.Entry_handler_addr.reads_offset_fields: a canonical stored offset reads back exactly"
-        );
     }
 }
